@@ -11,7 +11,7 @@ EXTENDS Integers, Sequences, FiniteSets, TLC, Json, IOUtils, SequencesExt
 
 CONSTANTS MaxLen      \* scopes have 1..MaxLen dot-separated segments
 
-Seg == {"a", "b", "*", ""}
+Seg == {"a", "ab", "b", "*", ""}      \* "ab": a segment that has another segment as a string prefix (a boundary is a dot, not a prefix)
 Scopes == UNION {[1..n -> Seg] : n \in 1..MaxLen}
 
 (* ---- the documented rules ------------------------------------------------- *)
